@@ -74,7 +74,8 @@ WlsSeedStep == /\ c.kind = "wseed"
                /\ exp' = NoExp
 WlsCaseStep == /\ c.kind = "wseed2"
                /\ \E b \in [1..Fams[c.f].n -> Fams[c.f].bv] : c' = MkWLS(c.A, b, c.s)
-               /\ exp' = ExpectedWLS(c')
+               /\ exp' = ExpectedWLS(c') @@ [nat |-> NatScale(c'.A, c'.b, c'.s),
+                                              natz |-> NatScale(c'.A, ModelOf(c'.A, SubSeq(ShiftZ, 1, Cols(c'.A))), c'.s)]
 
 (* ------------------------------------------------------------------------------------- *)
 (* pcomp family                                                                           *)
@@ -192,6 +193,8 @@ C15a_DofCountsWeighted == IsWLS => DofCountsWeighted(c.A, W_, exp)
 C15a_NormalPosDef == IsWLS => NormalPosDef(c.A, W_)
 C15a_NoBetterNeighbour == IsWLS => NoBetterNeighbour(c.A, c.b, W_, exp)
 C15a_ZeroWeightIgnored == IsWLS => ZeroWeightIgnored(c.A, c.b, W_, exp)
+C15a_ScaleBoundsSolution == IsWLS => ScaleBoundsSolution(c.A, c.b, W_)
+C15a_ScaleHomogeneous == IsWLS => ScaleHomogeneous(c.A, c.b, c.s, 2)
 C15a_LayoutIndependent == IsWLS => LayoutIndependent(c)
 C15a_HomogeneousInB == IsWLS => HomogeneousInB(c.A, c.b, c.s, exp, 2)
 C15a_HomogeneousInS == IsWLS => HomogeneousInS(c.A, c.b, c.s, exp, 2)
